@@ -32,6 +32,7 @@ fn streams(t: Tier) -> Vec<StreamDef> {
         st("payload_lengths", t.n(40 * 1018, 40 * 1018, 60, 40 * 1018), true),
         st("vendor_grid", t.n(wire::VENDOR_GRID, wire::VENDOR_GRID, 40, wire::VENDOR_GRID), true),
         st("text_grid", t.n(wire::TEXT_GRID, wire::TEXT_GRID, 60, wire::TEXT_GRID), true),
+        st("lead_grid", t.n(wire::LEAD_GRID, wire::LEAD_GRID, 40, wire::LEAD_GRID), true),
         st("dict_grid", t.n(wire::dict_grid_count(), wire::dict_grid_count(), 40, wire::dict_grid_count().min(200_000)).min(wire::dict_grid_count()), wire::dict_grid_exhaustive(t == Tier::Quick || t == Tier::Thorough)),
     ]
 }
@@ -449,6 +450,12 @@ fn run(ctx: &mut Ctx) {
             let idx = ctx.idx;
             let b = wire::vendor_grid_case(&mut ctx.rng, idx);
             judge(ctx, &b, "vendor_grid");
+            judge_avps(ctx, &b[12..]);
+        }
+        "lead_grid" => {
+            let idx = ctx.idx;
+            let b = wire::lead_grid_case(&mut ctx.rng, idx);
+            judge(ctx, &b, "lead_grid");
             judge_avps(ctx, &b[12..]);
         }
         "dict_grid" => {
